@@ -1,7 +1,8 @@
 //! C17 adapter: the real `MemoryStore` behind the line protocol.
 //!
-//! Logical time: the clock of a case stands at 1000; one unit is one hour of real time, so the
-//! real clock cannot cross a unit boundary during a case.
+//! Logical time: the clock of a case starts at 1000 and moves only by `adv <n>`; one unit is one
+//! hour on the `Instant` scale. The store reads the clock through `crate::verif::store_now`
+//! (hook in `store.rs`), which this adapter pins to the instant standing for the logical time.
 
 use super::{
     record::{ContentProvider, Key, Record},
@@ -20,6 +21,14 @@ pub struct StoreBox {
     store: Option<MemoryStore>,
     /// Real instant standing for logical time `NOW`.
     base: Instant,
+    /// Logical clock reading.
+    now: i64,
+}
+
+impl Drop for StoreBox {
+    fn drop(&mut self) {
+        crate::verif::set_store_clock(None);
+    }
 }
 
 impl StoreBox {
@@ -27,7 +36,12 @@ impl StoreBox {
         Self {
             store: None,
             base: Instant::now(),
+            now: NOW,
         }
+    }
+
+    fn pin(&self) {
+        crate::verif::set_store_clock(Some(self.instant(self.now)));
     }
 
     /// Future logical times are whole hours ahead; past ones are milliseconds behind `base`
@@ -52,7 +66,13 @@ impl StoreBox {
 impl VerifBox for StoreBox {
     fn step(&mut self, line: &str) -> String {
         let t: Vec<&str> = line.split_whitespace().collect();
+        self.pin();
         match t.as_slice() {
+            ["adv", n] => {
+                self.now += n.parse::<u32>().expect("adv") as i64;
+                self.pin();
+                "ok".into()
+            }
             ["cfg", recs, size, pkeys, paddrs, perkey, ttl] => {
                 let n = |s: &str| s.parse::<usize>().expect("number");
                 let config = MemoryStoreConfig {
@@ -66,6 +86,8 @@ impl VerifBox for StoreBox {
                 };
                 self.store = Some(MemoryStore::with_config(peer(0), config));
                 self.base = Instant::now();
+                self.now = NOW;
+                self.pin();
                 "ok".into()
             }
             ["put", key, vlen, tag, exp] => {
